@@ -27,7 +27,7 @@ CHECKS = [
    'Nothing outside the region is touched, the image stays well-formed after every (also failed) operation, and a handle attached to a byte copy at another address observes the same keys, values and counters; constructor capacity computation and zeroing for region sizes around every boundary.'),
  C('C08', 'inductive step from every list of n<=3(4) entries under each of the 16 option combinations (per-query constants), names/values symbolic, hash stubbed; save/load through an in-memory file; SAT',
    'put/get/getmulti/walks/remove/removeobj/sort/size/clear from every list state within the bound behave as an ideal ordered multimap under all 16 option combinations; save then load reproduces entries in order and reports their number.'),
- C('C09', 'inductive step from every well-formed list of n<=4(5) nodes, index over the whole int range; queue/stack/grow on top; SAT',
+ C('C09', 'inductive step from every well-formed list of n<=4(5) nodes, index over the whole int range; queue/stack/grow on top; printf-style qgrow_addstrf with a vsnprintf("%s") model and argument lengths derived from the source constants; SAT',
    'Every list operation from every well-formed list within the bound with any int index acts as on an ideal sequence; refused calls change nothing; queue FIFO, stack LIFO, grow buffer concatenation.'),
  C('C10', 'inductive step from every vector state with capacity<=3(5), element sizes {1,3,...}, index over the whole int range; SAT',
    'Every vector operation from every valid state within the capacity bound acts as on an ideal array under each growth policy; resize to any capacity incl. zero keeps the vector usable.'),
@@ -35,7 +35,7 @@ CHECKS = [
    'No out-of-object access, use after free, overlapping memcpy, signed overflow or leak on any path of any one-step query of tree table, hash table, list family, vector within their bounds (static hash table and list table: see not-applicable/pending notes).'),
  C('C12', 'per entry point: caller buffers scribbled+freed before read-back, returned copies checked with __CPROVER_same_object and after container release; SAT',
    'Containers keep private copies and hand out independent copies, for every entry point of the covered containers and all byte contents within the bounds.'),
- C('C13', 'interleaving injection: single-threaded harness, lock model with scheduling hook, the schedule point of the second thread\'s whole call is a solver variable; outcomes compared with both sequential orders on an ideal model; SAT',
+ C('C13', 'interleaving injection: single-threaded harness, lock model with scheduling hook, the schedule point of the second thread\'s whole call is a solver variable; outcomes compared with both sequential orders on an ideal model; memory-safety preconditions (memcpy/free) inside an interleaving owned by this check; SAT',
    'For two overlapping calls (one per logical thread) on a thread-safe vector, list, list table, hash table or tree table, results and final contents equal one of the two sequential orders for every scheduling point at lock-boundary granularity and every argument. The lock primitive (Q_MUTEX_ENTER/LEAVE) is checked contended in isolation: a thread leaves ENTER only as owner, the forced unlock never releases another thread\'s hold (spin bound scaled by a guarded hook). More threads/calls, walks under the lock and memory-model effects are outside the claim.'),
  C('C14', 'every public function on a thread-safe container (and the rotating logger qlog.c) under a counting lock model with an allocation failure at each position; an unlock without a matching lock is itself an assertion failure (= entering with the lock held and returning one level lower); SAT',
    'The lock depth after each call equals the depth before it on every path reachable by arguments, state or allocation failure within the bounds.'),
